@@ -2,7 +2,7 @@
 machine; optional jobs may end inconclusive without changing the exit code (they are reported in evidence)."""
 import random
 
-BUDGET = {'quick': 8 * 60, 'thorough': 50 * 60}
+BUDGET = {'quick': 8 * 60, 'thorough': 30 * 60}
 
 
 def J(id, fn, params=None, required=True, timeout=300, engine='S', mem_gb=8):
@@ -382,7 +382,7 @@ C10_QUICK = [
     ('cached(concat[sms without contents,orig with content]) x 2 symbolic ops', CA(CC(SM('ab', 'AAAA', ('o.js',)), O('c?', 'b.js'))), dict(history_slots=2)),
     ('concat[cached(concat[orig x/??,orig c? b]),orig z c] (real rope.rs) after map', CC(CA(CC(O('x\n??'), O('c?', 'b.js'))), O('z', 'c.js')), dict(history=['map1'], alt='uncached', rope='real')),
     ('concat[cached(concat[rawstr a/b,rawstr c]),orig z] (real rope.rs) x 1 symbolic op', CC(CA(CC(RS('!\n!'), RS('!'))), O('z?')), dict(history_slots=1, alt='uncached', rope='real')),
-    ('cached(replace(orig abcdef,[sym OUT],[sym in])) after stream', CA(RP(O('abcdef'), (Q, Q, 'OUT'), (Q, Q, 'in'))), dict(history=['c1f0'])),
+    ('cached(replace(orig abcd,[sym OUT],[sym in])) after stream', CA(RP(O('abcd'), (Q, Q, 'OUT'), (Q, Q, 'in'))), dict(history=['c1f0'])),
 ]
 
 
@@ -553,7 +553,7 @@ def c13_jobs(tier, seed):
 CACHED_QUICK = [
     ('concat[cached(concat[orig x/??,orig c? b]),orig z c] (real rope.rs) after map', CC(CA(CC(O('x\n??'), O('c?', 'b.js'))), O('z', 'c.js')), dict(history=['map1'], rope='real')),
     ('concat[rawstr,cached(concat[orig a?;b,rawstr2]),rawstr /,orig c?; b] after a stream of the parent', CC(RS('!'), CA(CC(O('a?;b'), RS('!!'))), RS('\n'), O('c?;', 'b.js')), dict(history=['c1f0'])),
-    ('cached(replace(orig abcdef,[sym OUT],[sym in])) after stream', CA(RP(O('abcdef'), (Q, Q, 'OUT'), (Q, Q, 'in'))), dict(history=['c1f0'])),
+    ('cached(replace(orig abcd,[sym OUT],[sym in])) after stream', CA(RP(O('abcd'), (Q, Q, 'OUT'), (Q, Q, 'in'))), dict(history=['c1f0'])),
     ('concat[replace(orig a;,[X/Y beyond end],[Z beyond end]),orig d?;e b] (real rope.rs)', CC(RP(O('a;'), (5, 5, 'X\nY'), (6, 6, 'Z')), O('d?;e', 'b.js')), dict(rope='real')),
     ('concat[cached(replace(rawstr a/b,[X/Y beyond end],[Z beyond end])),orig d? b] (real rope.rs) after stream', CC(CA(RP(RS('a\nb'), (5, 5, 'X\nY'), (6, 6, 'Z'))), O('d?', 'b.js')), dict(history=['c1f0'], rope='real')),
     ('cached(concat[sms(ab/cd),rawstr1]) after map (lines)', CA(CC(SM('ab\ncd', 'AAAA,?AAA;?ACA', ('o.js',), ('xy\nuv',)), RS('!'))), dict(history=['map0'])),
